@@ -459,9 +459,9 @@ def pretags(c):
 
 def subchecks(tier):
     return [
-        Sub("absolute", body, strategy=case, quick=1200, thorough=30000, pretags=pretags),
-        Sub("all_equal", equal_body, strategy=equal_case, quick=200, thorough=4000, pretags=pretags),
-        Sub("scaling", scale_body, strategy=scale_case, quick=300, thorough=6000, pretags=pretags),
+        Sub("absolute", body, strategy=case, quick=1200, thorough=80000, pretags=pretags),
+        Sub("all_equal", equal_body, strategy=equal_case, quick=200, thorough=12000, pretags=pretags),
+        Sub("scaling", scale_body, strategy=scale_case, quick=300, thorough=15000, pretags=pretags),
         Sub("pexp_evaluates", pexp_body, strategy=pexp_case, quick=20, thorough=100, pretags=pretags),
         Sub("audit_oracle", audit_body, strategy=lambda: case(nmax=12), quick=40, thorough=400),
     ]
